@@ -73,6 +73,12 @@ def main(tier, seed, replay=None):
     for c, singles, pc, perm in groups:
         cases += [c] + singles + [pc]
     results, nterms, nskip, hist = states.run_states(run, "C07", binp, cases, 7, lambda code: code >= 2 and code != 1, "multi-rhs problem")
+    # several right-hand sides over exactly rank-deficient bases with a user threshold (truncation active): EVERY column gets the
+    # minimum-norm least-squares solution of its own single-column problem
+    rterms, rhist = states.run_rankdef(run, "C07", binp, rng, 16 if tier == "quick" else 300, (3, 4, 8),
+                                       ctors=["mrhs", "mrhs", "mrhs_parallel"], S=[2, 3, 2, 4], skip_dependency_defect=True)
+    run.coverage["rank_deficient_multi_rhs_states"] = len(rterms)
+    run.coverage["rank_deficient_code_histogram"] = {str(k): v for k, v in rhist.items()}
     it = iter(results)
     nbit, nbit_eq = 0, 0
     for c, singles, pc, perm in groups:
